@@ -28,7 +28,7 @@ TECHNIQUE = (
 )
 RULE = (
     "partA: all extractors with filter strings; states = reachable (NFA state set, filter state) pairs, transitions = atom steps; "
-    "partB: all documents of <= k fragments x full extractor list, and all 1024 sub-lists of a 10-extractor pool x all documents "
+    "partB: all documents of <= k fragments x full extractor list, every reporter string of the database in two minimal forms, and all 1024 sub-lists of a 10-extractor pool x all documents "
     "of <= 2 fragments of a 14-fragment alphabet. non-trivial = extractor whose product space has > 1 state / document on which "
     ">= 1 extractor matches."
 )
@@ -263,13 +263,21 @@ def check_extractor(i):
             continue
         odd = sorted({f"U+{ord(c):04X}" for c in w if ord(c) > 127})
         viol.append(("filter-loses-match", f"extractor #{i} {e.regex[:60]!r} matches {w!r} but the filter skips it (non-ASCII: {odd})", {"part": "A", "extractor": i, "word": w}))
-    # conformance NFA -> regex: one shortest word through every transition must full-match
+    # conformance NFA -> regex: one shortest word through every transition must full-match; and the REAL
+    # filter must select the extractor for each of them (binds the model's matching semantics - all
+    # occurrences of every literal - to what the implementation's automaton search actually reports)
     tw = rx.transition_words(nfa, members)
+    lost = 0
     for w in tw:
         info["traces"] += 1
         if e.compiled_regex.fullmatch(w) is None:
             herr.append(f"model divergence: NFA of extractor #{i} accepts {w!r} (transition word) but fullmatch fails")
             break
+        for text in (w, "Foo v. Bar, " + w.strip() + " (1999)."):
+            if e.compiled_regex.search(text) and not any(x is e for x in tk.get_extractors(text)):
+                lost += 1
+                if lost <= 2:
+                    viol.append(("filter-loses-match", f"extractor #{i} {e.regex[:60]!r} matches {text!r} but the filter skips it", {"part": "A", "extractor": i, "word": text}))
     # conformance both ways on single-character edits of the shortest accepted word
     if tw:
         base = min(tw, key=len)
@@ -355,6 +363,8 @@ def shards(tier, seed):
         out.append({"part": "B", "depth": DEPTH[tier], **sh})
     for r in range(32):
         out.append({"part": "S", "r": r, "n": 32})
+    for r in range(32):
+        out.append({"part": "BS", "r": r, "n": 32})
     out.append({"part": "meta"})
     return out
 
@@ -412,6 +422,24 @@ def run_shard(sh):
             st.outcomes.add(h64([nt, [r[0] for r in res]]))
             for lab, det in res:
                 st.violation({"part": "B", "text": text}, f"{lab}: {det} :: text={text!r}", label=f"B-{lab}")
+        return st
+    if sh["part"] == "BS":
+        # every reporter/journal/law string of the database in the two minimal forms, full extractor list
+        ref = G["ref"]
+        for rep in sorted(T.EDITIONS_LOOKUP)[sh["r"] :: sh["n"]]:
+            for text in (f"12 {rep} 345", f"See 12 {rep} at 345."):
+                res, nt = check_doc(text, tk, ref, "full list")
+                st.evaluations += 1
+                st.traces += 1
+                st.transitions += 1
+                p["evaluations"] += 1
+                k = h64("BS" + text)
+                st.states.add(k)
+                if nt:
+                    st.nontrivial.add(k)
+                st.outcomes.add(h64([nt, [r[0] for r in res]]))
+                for lab, det in res:
+                    st.violation({"part": "B", "text": text}, f"{lab}: {det} :: text={text!r}", label=f"BS-{lab}")
         return st
     pool = sub_pool()
     texts = [""] + SUB_ALPHA + [a + b for a in SUB_ALPHA for b in SUB_ALPHA]
